@@ -123,11 +123,54 @@ def expected(case, step, state: dict):
     return t, py_render(py_build(case["templates"][chosen]), vars_)
 
 
+def _move_into_templated_page(ctx, res, rng, job):
+    """`note move` initialises a MISSING destination from its template; an existing destination whose path matches a template
+    pattern (with content, or empty) keeps what it holds.  The command runs with a working directory different from the notes dir."""
+    zdir = ctx.tmp / "z"
+    (zdir / "log").mkdir(parents=True)
+    (zdir / "log.zot").write_text("# TEMPLATE log\n\n## {{ name }}\n- templated note\n")
+    cfg = Z.write_config(ctx.tmp / "cfg.yml", template_pattern_map={r"^log/(?P<name>[a-z]+)\.zo$": "log.zot"})
+    (zdir / "src.zo").write_text("# Src\n\n- 240101#00 first\n- 240101#01 second\no P1 240101#02 third\n")
+    existing = rng.choice(["# Existing log\n\n- 240202#00 a note that lives here\n- 240202#01 another one\n", "# Existing\n", ""])
+    (zdir / "log" / "today.zo").write_text(existing)
+    Z.clear_engine_cache()
+    rc, _, _ = Z.zorg_main(zdir, "db", "create", config=cfg)
+    if rc != 0 and existing != "":
+        res.notes.append("move scenario: db create failed")
+        return None
+    if existing == "":
+        # an empty page is no valid page for the index: it is created after indexing (the editor left it empty)
+        (zdir / "log" / "today.zo").unlink()
+        Z.clear_engine_cache()
+        Z.zorg_main(zdir, "db", "create", config=cfg)
+        (zdir / "log" / "today.zo").write_text("")
+    moved = []
+    for zid in rng.sample(["240101#00", "240101#01", "240101#02"], 2):
+        Z.clear_engine_cache()
+        rc, _, _ = Z.zorg_main(zdir, "note", "move", zid, rng.choice(["log/today", "log/today.zo"]), config=cfg)
+        res.evaluations += 1
+        after = (zdir / "log" / "today.zo").read_text()
+        moved.append(zid)
+        lost = [l for l in existing.split("\n") if l.strip() and l not in after.split("\n")]
+        if rc != 0 or lost or "TEMPLATE" in after or "templated note" in after or any(z not in after for z in moved):
+            res.failures.append(C.Failure(f"note move {zid} into the existing page log/today.zo (matches a template pattern): rc={rc}, lost lines {lost[:2]}, page now {after[:200]!r}",
+                                          {"kind": "move_overwrites", "existing": existing, "after": after[:600]}))
+            return None
+    # a missing destination IS created from the template
+    Z.clear_engine_cache()
+    rc, _, _ = Z.zorg_main(zdir, "note", "move", [z for z in ["240101#00", "240101#01", "240101#02"] if z not in moved][0], "log/fresh", config=cfg)
+    fresh = (zdir / "log" / "fresh.zo").read_text() if (zdir / "log" / "fresh.zo").exists() else None
+    if rc != 0 or fresh is None or "fresh" not in fresh:
+        res.failures.append(C.Failure(f"note move into a missing page that matches a template pattern: rc={rc}, page {str(fresh)[:200]!r}", {"kind": "move_missing"}))
+    res.count("move_into_templated_page")
+    return None
+
+
 def body(ctx: C.Ctx, proof: C.ProofStatus) -> C.Result:
     from zorg.service.templates import init_from_template
 
     Z.silence_logs()
-    res = C.Result()
+    res, _ = C.parallel_jobs(ctx, ctx.scale(9, 60), _move_into_templated_page)
     rng = ctx.rng
     n = ctx.scale(600, 15000)
     reqs, metas = [], []
